@@ -21,6 +21,16 @@
 //!                lww/redelivery_changed_view, view_not_join_of_seen, lww/replicas_diverge_same_inputs;
 //!                failing scripts are shrunk (steps, replicas, batch entries) with `shrink_list`.
 //!                The directed scripts (the seeded C17_2 shapes) run before every other stream.
+//!   refute_vs_stale[.directed] / mgr.alive_vs_stale[.directed]  a refutation (`refute(m, n)` / a handled
+//!                `Alive`) against news about incarnations of m below n, on 1-4 real replicas / managers:
+//!                a common setup leaves the member in every health (merged, or written by a local event),
+//!                then the SAME events (the refutation, stale suspicions, stale Degraded / Failed / Unknown
+//!                states, older refutations, mark_healthy / add_peer, clock ops) reach every replica in a
+//!                different order.  Oracles: <site>/announced_incarnation_dropped (also evaluated in every
+//!                other stream that calls refute / delivers an Alive), <site>/degraded_or_failed_at_refuted_incarnation,
+//!                refute/replicas_diverge_on_event_order, handle_gossip/managers_diverge_on_message_order,
+//!                <site>/not_healthy_at_announced_incarnation_after_stale_news; scripts shrunk over replicas,
+//!                events, setup, batch entries.  The directed scripts run before every random stream.
 //!   In every history stream the model is asked only until the first disagreement; the real
 //!   replicas / managers and all oracles on them keep running to the end of the history.
 //!   lww.system   multi-node runs in which only member m announces incarnations for m
